@@ -155,8 +155,14 @@ def run(pid, tier, seed, njobs=None, kind_of="iter"):
            "outcomes": outcomes, "yields": sum(1 for p in distinct for e in p["ev"] if e["e"] == "yield"),
            "preds": sum(1 for p in distinct for e in p["ev"] if e["e"] == "pred"), "rejected": len(v["rejected"]),
            "tlc_trace_validation": {"states": v["states"], "distinct": v["distinct"], "wall_s": round(v["wall"], 1)}}
-    if pid == "C07":
-        lib.add_spec_coverage(cov, pid, tier)
+    # step-level conformance with Flurry.tla (traverser and retain's conditional removal are specification actions)
+    import stepconf
+    sc = stepconf.leg(pid, tier, seed, verdict, n=(100 if tier == "quick" else 1000), whole=0.45)
+    cov["step_conformance"] = sc
+    cov["states"] += sc["tlc_states"]
+    cov["transitions"] += sc["tlc_states"]
+    cov["traces_validated_against_impl"] += sc["accepted"]
+    lib.add_spec_coverage(cov, pid, tier)
     rc = verdict.finish()
     lib.write_evidence(pid, tier, seed, "model_checking", cov, time.time() - t0, len(verdict.violations),
                        ["yield / pred events are logged by the harness closure at the moment the crate hands the entry over",
